@@ -145,4 +145,12 @@ def cases(ctx):
                 if r < 0.08:
                     c["cli"] = True
                 out.append(c)
+    # two different included files with the same text: an error in the second is reported under ITS name
+    same = "    nop\n    .dw zz_local + 1\n    lda.w zz_local\n"
+    for second_err in (".dw", "lda.w"):
+        txt2 = same
+        main = (".scope zz_one {\nzz_local = 1\n.include 'inc/one.s'\n}\n.scope zz_two {\n.include 'inc/two.s'\n}\n")
+        out.append({"kind": "same-text-includes", "rom": "low", "src": "*=0x008000\n" + main, "count_empty": True,
+                    "files": {"inc/one.s": same, "inc/two.s": txt2},
+                    "spec": {"t": "c17", "file": "inc/two.s", "line": 1, "col": None, "text": "    .dw zz_local + 1"}})
     return out
